@@ -9,6 +9,7 @@ import (
 	"bytes"
 	"errors"
 	"fmt"
+	"io"
 	"math"
 	"testing"
 
@@ -126,6 +127,39 @@ func runReader(c *ctx) {
 		}
 		before := len(sr.Calls)
 		rc.Steps++
+		if delivered < n && tp.Bool(1, 10) {
+			// Consume through io.Copy into a writer that may fail (io.Copy
+			// uses WriteTo if the reader has one, Read otherwise).  Bytes
+			// that io.Copy read but could not write are gone; what matters
+			// here is what the wrapped reader was asked for and handed out.
+			sw := &kernel.SimWriter{Tape: tp, Stats: rc.Stats, FailRate: 6}
+			_, cerr := io.Copy(sw, lr)
+			rc.Stats.Probe("reader-consumed-through-io.Copy")
+			c.sig = kernel.HashBytes(c.sig, []byte{0xC0, errByte(cerr)})
+			var fwd []byte
+			for _, wc := range sw.Calls {
+				fwd = append(fwd, wc.Data...)
+			}
+			for _, uc := range sr.Calls[before:] {
+				if uint64(uc.Buf) > n-under {
+					rc.Fail("over-request", "LimitReader", fmt.Sprintf(
+						"during io.Copy the wrapped reader was asked for %d bytes although only %d of the limit %d remain", uc.Buf, n-under, n))
+
+					return
+				}
+				under += uint64(max(uc.N, 0))
+			}
+			if under > n || !bytes.Equal(fwd, data[delivered:min(uint64(l), delivered+uint64(len(fwd)))]) {
+				rc.Fail("over-delivery", "LimitReader", fmt.Sprintf(
+					"io.Copy from the limited reader (limit %d): %d bytes taken from the wrapped reader, %d bytes %v handed to the writer from offset %d", n, under, len(fwd), fwd, delivered))
+
+				return
+			}
+			delivered = under
+			c.nonTriv = true
+
+			continue
+		}
 		got, err := lr.Read(p)
 		calls := sr.Calls[before:]
 		c.logf("Read(buf %d) = (%d, %v); wrapped calls: %s", bufLen, got, err, fmtCalls(calls))
@@ -350,6 +384,29 @@ func runGrowingBuffer(c *ctx) {
 	}
 }
 
+// checkForwarded compares what the wrapped writer has been given with the
+// first min(total, limit) bytes of everything written.
+func checkForwarded(rc *kernel.RunCtx, c *ctx, sw *kernel.SimWriter, all []byte, limit uint) bool {
+	var fwd []byte
+	for _, wc := range sw.Calls {
+		fwd = append(fwd, wc.Data...)
+	}
+	want := all
+	if uint(len(want)) > limit {
+		want = want[:limit]
+		c.nonTriv = true
+	}
+	if !bytes.Equal(fwd, want) {
+		rc.Fail("forwarded", "TruncatedWriter.Write", fmt.Sprintf(
+			"after %d bytes written with limit %d the wrapped writer has been given %d bytes %v, want exactly the first %d: %v",
+			len(all), limit, len(fwd), fwd, len(want), want))
+
+		return false
+	}
+
+	return true
+}
+
 func errByte(err error) byte {
 	switch {
 	case err == nil:
@@ -426,6 +483,30 @@ func runWriter(c *ctx) {
 		orig := append([]byte(nil), b...)
 		before := len(sw.Calls)
 		rc.Steps++
+		if l > 0 && tp.Bool(1, 6) {
+			// The same bytes arrive through io.Copy from a plain reader (which
+			// uses the writer's ReadFrom, if it has one).
+			rc.Stats.Probe("writer-fed-through-io.Copy")
+			src := kernel.NewSimReader(tp, rc.Stats, orig, false)
+			nc, cerr := io.Copy(tw, struct{ io.Reader }{src})
+			if cerr == nil && nc != int64(l) {
+				rc.Fail("count", "TruncatedWriter", fmt.Sprintf("io.Copy of %d bytes into the truncated writer reported %d", l, nc))
+
+				return
+			}
+			if cerr != nil {
+				// A failing wrapped writer may cut the copy short: only what
+				// went through counts as written.
+				orig = orig[:min(int(nc), len(orig))]
+			}
+			all = append(all, orig...)
+			c.sig = kernel.HashBytes(c.sig, []byte{0xC1, byte(l), errByte(cerr)})
+			if !checkForwarded(rc, c, sw, all, limit) {
+				return
+			}
+
+			continue
+		}
 		got, err := tw.Write(b)
 		calls := sw.Calls[before:]
 		all = append(all, orig...)
